@@ -71,7 +71,7 @@ class Classes:
 
 def regex_class_list(repo):
     """independent (regex, not AST) list of the plain classes derived from PDU, to cross-check the translator"""
-    pat = re.compile(r"\bclass\s+(?:TINS_API\s+)?(\w+)\s*(?:final\s*)?:\s*public\s+([\w:]+)")
+    pat = re.compile(r"\b(?:class|struct)\s+(?:TINS_API\s+)?(\w+)\s*(?:final\s*)?:\s*(?:public\s+)?([\w:]+)")
     edges = {}
     for f in glob.glob(os.path.join(repo, "include", "tins", "**", "*.h"), recursive=True):
         src = re.sub(r"//[^\n]*|/\*.*?\*/", "", open(f, errors="replace").read(), flags=re.S)
